@@ -28,7 +28,10 @@ DoContains == \E k \in Keys : Contains(1, k, LHas(S, k)) /\ NoTick
 DoLen == Len_(SumLen) /\ NoTick
 DoClear == Clear(<<>>) /\ NoTick
 
-Next == DoGet \/ DoPut \/ DoRefused \/ DoRemove \/ DoContains \/ DoLen \/ DoClear
+(* DoRefused, DoContains, DoLen leave every variable unchanged (pure stuttering): they are part of the    *)
+(* contract but add nothing to the reachable states, so the bounded model does not enumerate them.      *)
+Next == DoGet \/ DoPut \/ DoRemove \/ DoClear
+Stutters == [][(DoRefused \/ DoContains \/ DoLen) => UNCHANGED mcvars]_mcvars
 
 Spec == Init /\ [][Next]_mcvars
 
